@@ -19,7 +19,7 @@ pub fn def() -> CheckDef {
         bounds_quick: "lax module / functors: the small-shape subset of the C09, C10, C12 (lax) and C19 (forget) jobs; checked constructors on RAW data: arrays of length <=3 whose entries, codomains and sizes are unconstrained 64-bit values (index width 64); hypergraph/open-hypergraph constructors on valid segmented arrays with arbitrary segment counts <=2 and symbolic codomains; typed operations on W<=2, X<=1 operands",
         bounds_thorough: "arrays <=4, counts <=3, operands W<=3, X<=2",
         jobs,
-        budget_s: (120, 1500),
+        budget_s: (100, 1500),
     }
 }
 
@@ -221,14 +221,14 @@ pub fn jobs(tier: Tier, seed: u64) -> Vec<Job> {
     };
     let mut out = vec![];
     for n in 0..=m {
-        out.push(case_job(crate::case!(format!("FiniteFunction::new raw |table|={}", n), move || PV::List(vec![PV::FF(raw_ff(n, "f"))]), c05_ff_new, oracle_ff_new, 2), raw.clone(), per_job, true));
+        out.push(case_job(crate::case!(format!("FiniteFunction::new raw |table|={}", n), move || PV::List(vec![PV::FF(raw_ff(n, "f"))]), c05_ff_new, oracle_ff_new, 2), raw.clone(), per_job, tier == Tier::Quick));
         for v in 0..=m {
-            out.push(case_job(crate::case!(format!("IndexedCoproduct::new raw segments={} values={}", n, v), move || PV::List(vec![PV::FF(raw_ff(n, "z")), PV::FF(raw_ff(v, "v"))]), c05_ic_new, oracle_ic_new(false), 3), raw.clone(), per_job, true));
+            out.push(case_job(crate::case!(format!("IndexedCoproduct::new raw segments={} values={}", n, v), move || PV::List(vec![PV::FF(raw_ff(n, "z")), PV::FF(raw_ff(v, "v"))]), c05_ic_new, oracle_ic_new(false), 3), raw.clone(), per_job, tier == Tier::Quick));
             out.push(case_job(
                 crate::case!(format!("IndexedCoproduct::from_semifinite raw segments={} values={}", n, v), move || PV::List(vec![PV::FF(raw_ff(n, "z")), PV::FF(raw_ff(v, "v"))]), c05_ic_from_semifinite, oracle_ic_new(true), 3),
                 raw.clone(),
                 per_job,
-                true,
+                tier == Tier::Quick,
             ));
         }
     }
@@ -241,7 +241,7 @@ pub fn jobs(tier: Tier, seed: u64) -> Vec<Job> {
         for na in 0..=cm {
             for nb in 0..=cm {
                 let gen = move || PV::List(vec![PV::of_ts(&gen_labels(nx, "x")), PV::IC(icl(na, if na == 0 { 0 } else { 2 }, "a")), PV::IC(icl(nb, if nb == 0 { 0 } else { 1 }, "b"))]);
-                out.push(case_job(crate::case!(format!("Operations::new counts x={} a={} b={}", nx, na, nb), gen, c05_operations_new, oracle_operations, 2), cfg.clone(), per_job, true));
+                out.push(case_job(crate::case!(format!("Operations::new counts x={} a={} b={}", nx, na, nb), gen, c05_operations_new, oracle_operations, 2), cfg.clone(), per_job, tier == Tier::Quick));
                 // hypergraph / open hypergraph constructors: valid segmented arrays, arbitrary counts and codomains
                 for nw in [0usize, 2] {
                     let gen = move || {
@@ -256,7 +256,7 @@ pub fn jobs(tier: Tier, seed: u64) -> Vec<Job> {
                         };
                         PV::List(vec![PV::IC(icf(na, "s")), PV::IC(icf(nb, "t")), PV::of_ts(&gen_labels(nw, "w")), PV::of_ts(&gen_labels(nx, "x")), PV::FF(gen_ff_sym(1, 3, "p")), PV::FF(gen_ff_sym(2, 3, "q"))])
                     };
-                    out.push(case_job(crate::case!(format!("Hypergraph::new/OpenHypergraph::new |x|={} |s|={} |t|={} |w|={}", nx, na, nb, nw), gen, c05_hypergraph_new, oracle_hypergraph, 6), cfg.clone(), per_job, true));
+                    out.push(case_job(crate::case!(format!("Hypergraph::new/OpenHypergraph::new |x|={} |s|={} |t|={} |w|={}", nx, na, nb, nw), gen, c05_hypergraph_new, oracle_hypergraph, 6), cfg.clone(), per_job, tier == Tier::Quick));
                 }
             }
         }
@@ -275,7 +275,7 @@ pub fn jobs(tier: Tier, seed: u64) -> Vec<Job> {
                         PV::of_ts(&gen_labels(na + nb, "w")),
                     ])
                 };
-                out.push(case_job(crate::case!(format!("singleton/tensor_operations/identity/discrete/empty |a|={} |b|={} ops={}", na, nb, nops), gen, c05_constructors, oracle_constructors, 14), cfg.clone(), per_job, true));
+                out.push(case_job(crate::case!(format!("singleton/tensor_operations/identity/discrete/empty |a|={} |b|={} ops={}", na, nb, nops), gen, c05_constructors, oracle_constructors, 14), cfg.clone(), per_job, tier == Tier::Quick));
             }
         }
     }
